@@ -89,3 +89,79 @@ def random_tape_files(rnd, lengths=None, maxfiles=4):
         out.append(mkfile(name, content(rnd, rnd.choice(["ramp", "55", "3c", "marker", "rand", "00"]), n), rnd.choice([0, 1, 2, 3]), rnd.choice([0, 255]),
                           rnd.choice([0, 0x0E00, 0x553C, 0x3C00, 0x0055, 0xFFFF]), rnd.choice([0, 0x0E00, 0x3C55, 0x5500])))
     return out
+
+
+# ------------------------------------------------------------------ disk
+FAT_OFF, DIR_OFF, IMG = 78592, 78848, 161280
+T17 = GB * 34
+
+
+def seek(g):
+    return GB * g + (2 * GB if g > 33 else 0)
+
+
+def list_disk(buf):
+    from cocoasm.virtualfiles.disk import DiskFile
+    try:
+        out = DiskFile(buffer=list(buf)).list_files()
+        return {"ok": True, "files": [from_coco(c) for c in out], "exc": ""}
+    except Exception as e:
+        return {"ok": False, "files": [], "exc": type(e).__name__ + ":" + str(e)[:50]}
+
+
+def snapshot_delta(prev, buf):
+    grans = []
+    for g in range(68):
+        o = seek(g)
+        b = buf[o:o + GB]
+        if b != prev[o:o + GB]:
+            grans.append({"g": g, "b": [int(x) for x in b]})
+    stray = []
+    rest = buf[FAT_OFF + 68:FAT_OFF + 256]
+    for o in list(range(T17, FAT_OFF)) + list(range(DIR_OFF + 72 * 32, T17 + 2 * GB)):
+        if buf[o] != prev[o]:                      # a delta, like the granules: a byte changed outside granules / FAT / directory
+            stray.append(o)
+    if any(x not in (0x00, 0xFF) for x in rest):
+        stray.append(FAT_OFF + 68)
+    if len(buf) != len(prev):
+        stray.append(IMG)
+    return {"fat": [int(x) for x in buf[FAT_OFF:FAT_OFF + 68]], "dir": [int(x) for x in buf[DIR_OFF:DIR_OFF + 72 * 32]],
+            "grans": grans, "stray": stray[:8], "size": len(buf)}
+
+
+EMPTY_SNAP = {"fat": [], "dir": [], "grans": [], "stray": [], "size": 0}
+
+
+def disk_history(args):
+    """one DiskFile, a sequence of add_file calls; returns the trace record for Tr_Disk"""
+    from cocoasm.virtualfiles.disk import DiskFile
+    hid, order, files = args
+    d = DiskFile(granule_fill_order=list(order) if order else None)
+    events = []
+    prev = list(d.get_buffer())
+    for f in files:
+        try:
+            d.add_file(to_coco(f))
+            res, exc = "ok", ""
+        except Exception as e:
+            res, exc = "error", type(e).__name__ + ":" + str(e)[:50]
+        buf = d.get_buffer()
+        if res == "ok":
+            ev = {"op": "add", "file": jfile(f), "result": "ok", "exc": "", "changed": True, "snap": snapshot_delta(prev, buf), "listed": list_disk(buf)}
+            prev = list(buf)
+        else:
+            ev = {"op": "add", "file": jfile(f), "result": "error", "exc": exc, "changed": list(buf) != prev, "snap": EMPTY_SNAP, "listed": {"ok": False, "files": [], "exc": ""}}
+        events.append(ev)
+        if res != "ok":
+            break
+    return {"id": hid, "order": list(order) if order else [], "events": events}
+
+
+KINDS = {"ML": (2, 0, 10), "BAS": (0, 0, 3), "ASC": (1, 255, 0)}
+
+
+def disk_file(rnd, name, kind, stream_len, ext=None, content_kind="rand"):
+    ftype, dtype, extra = KINDS[kind]
+    n = max(0, stream_len - extra)
+    return mkfile(name, content(rnd, content_kind, n), ftype, dtype, rnd.choice([0x0E00, 0x3F00, 0x0000, 0xFFFF]) if kind == "ML" else 0,
+                  rnd.choice([0x0E10, 0x0000, 0xFF00]) if kind == "ML" else 0, ext=ext if ext is not None else ("BIN" if kind == "ML" else "BAS"))
